@@ -45,7 +45,7 @@ def valid_doc(rnd, lang="en"):
     K = {"en": ("Feature", "Background", "Scenario", "Scenario Outline", "Examples", "Rule", "Given ", "When ", "Then ", "And "),
          "de": ("Funktionalität", "Grundlage", "Szenario", "Szenariogrundriss", "Beispiele", "Regel", "Angenommen ", "Wenn ", "Dann ", "Und ")}[lang]
     lines = []
-    marks = {"after_step": [], "first_step_no_bg": [], "plain_scenario_after_steps": [], "table_rows": [], "table_rows2": [], "before_scenario": []}
+    marks = {"after_step": [], "first_step_no_bg": [], "plain_scenario_after_steps": [], "table_rows": [], "table_rows2": [], "before_scenario": [], "table_first": [], "table_first2": []}
     if lang != "en":
         lines.append("# language: %s" % lang)
     lines.append("%s: F" % K[0])
@@ -66,6 +66,8 @@ def valid_doc(rnd, lang="en"):
         lines.append("    %sb%d" % (K[7], i))
         if rnd.random() < 0.4:
             lines.append("      | h1 | h2 |")
+            marks["table_first"].append(len(lines))
+            marks["table_first2"].append(len(lines))
             if rnd.random() < 0.5:          # comment / blank lines inside a table do not count as rows
                 lines.append(rnd.choice(["      # note", "", "# c"]))
             lines.append("      | 1 | 2 |")
@@ -83,6 +85,7 @@ def valid_doc(rnd, lang="en"):
         if outline:
             lines.append("    %s:" % K[4])
             lines.append("      | x |")
+            marks["table_first"].append(len(lines))
             if rnd.random() < 0.5:
                 lines.append(rnd.choice(["      # note", "", "# c"]))
             lines.append("      | 1 |")
@@ -126,6 +129,11 @@ def faults(rnd, lang):
         res.append((lines[:pos] + ["      | a | b | c | d |"] + lines[pos:], pos + 1, "ragged-table-row"))
     for pos in marks["table_rows2"]:
         res.append((lines[:pos] + ["      | a |"] + lines[pos:], pos + 1, "short-table-row"))
+    # the same as the FIRST data row, directly below the heading line
+    for pos in marks["table_first"]:
+        res.append((lines[:pos] + ["      | a | b | c | d |"] + lines[pos:], pos + 1, "ragged-first-row"))
+    for pos in marks["table_first2"]:
+        res.append((lines[:pos] + ["      | a |"] + lines[pos:], pos + 1, "short-first-row"))
     for pos in marks["before_scenario"]:
         res.append((lines[:pos] + ["  @a b"] + lines[pos:], pos + 1, "malformed-tag"))
     # an Examples block directly under a Rule line (whatever precedes the Rule: a scenario or an outline with examples)
@@ -140,7 +148,7 @@ def step_faults(rnd, lang):
     and comment lines, a table, a doc-string with a blank line inside; one fault at a known line"""
     K = {"en": ("Given ", "When ", "Then ", "And ", "Examples: e", "Feature: again", "Rule: late", "this is not a step", "Scenario: S"),
          "de": ("Angenommen ", "Wenn ", "Dann ", "Und ", "Beispiele: e", "Funktionalität: nochmal", "Regel: spät", "das ist kein Schritt", "Szenario: S")}[lang]
-    lines, spots = [], []
+    lines, spots, heads = [], [], []
     if rnd.random() < 0.6:
         lines.append("")                    # the usual first line of a triple-quoted text
     indent = rnd.choice(["", "    "])
@@ -149,6 +157,7 @@ def step_faults(rnd, lang):
         r = rnd.random()
         if r < 0.25:
             lines += [indent + "  | h1 | h2 |", indent + "  | 1 | 2 |"]
+            heads.append(len(lines) - 1)
         elif r < 0.45:
             lines += [indent + '  """', indent + "  doc", "", indent + "  more", indent + '  """']
         spots.append(len(lines))
@@ -158,6 +167,9 @@ def step_faults(rnd, lang):
     res = []
     for pos in spots:
         for name, fl in (("examples-in-steps", K[4]), ("second-feature", K[5]), ("rule-in-steps", K[6]), ("text-after-steps", K[7])):
+            res.append((lines[:pos] + [indent + fl] + lines[pos:], pos + 1, name))
+    for pos in heads:
+        for name, fl in (("ragged-first-row", "  | a | b | c |"), ("short-first-row", "  | a |")):
             res.append((lines[:pos] + [indent + fl] + lines[pos:], pos + 1, name))
     return res, K[8]
 
